@@ -57,7 +57,7 @@ class Spheroid(CenteredScatterer):
         self.n = n
         self.r = r
         self.rotation = rotation
-        self.center = center
+        super().__init__(center)
 
         try:
             if np.any(np.array(self.r) < 0):
